@@ -386,6 +386,26 @@ type injPoint struct {
 	Syscall string
 	Nth     int
 	Path    string
+	Sig     string // normalised arguments of the recorded call (lengths, offsets, flags): must match the injected call
+}
+
+var reSigStr = regexp.MustCompile(`"(?:[^"\\\\]|\\\\.)*"(?:\.\.\.)?`)
+var reSigHex = regexp.MustCompile(`0x[0-9a-f]+`)
+var reSigTmp = regexp.MustCompile(`/[^ ,>"]*/(inj\d+|rec)/`)
+var reSigFD = regexp.MustCompile(`^\d+<`)
+
+// callSig keeps what identifies a call besides its ordinal: flags, lengths and offsets, the path with the random
+// parts removed. Buffer contents, addresses, descriptor numbers and the return value are dropped.
+func callSig(args string) string {
+	if i := strings.LastIndex(args, ") = "); i >= 0 {
+		args = args[:i]
+	}
+	args = reSigStr.ReplaceAllString(args, "B")
+	args = reSigHex.ReplaceAllString(args, "B")
+	args = reSigTmp.ReplaceAllString(args, "/D/")
+	args = reRandName.ReplaceAllString(args, "${1}N")
+	args = reSigFD.ReplaceAllString(args, "FD<")
+	return args
 }
 
 var reTrace = regexp.MustCompile(`^(\d+)\s+(openat|write|pwrite64|read|pread64|close|unlinkat|mkdirat|renameat|fsync)\((.*)`)
@@ -433,7 +453,7 @@ func parseTrace(traceFile, dir string) []injPoint {
 			inScope = false // a read at end of file carries no data: failing it loses nothing
 		}
 		if inScope && !strings.Contains(l, "ENOENT") {
-			pts = append(pts, injPoint{Syscall: m[2], Nth: counts[key], Path: firstPath(m[3], dir)})
+			pts = append(pts, injPoint{Syscall: m[2], Nth: counts[key], Path: firstPath(m[3], dir), Sig: callSig(m[3])})
 		}
 	}
 	return pts
@@ -534,8 +554,11 @@ func checkC20Faults(c *C20FaultCase) Result {
 		}
 		// strace counts "when=N" per traced thread: if a second thread also reached its N-th call the
 		// run had more than one fault and is discarded like a misaligned one
-		if nInjected == 1 && normPath(firstPath(injLine, dir), dir) != normPath(p.Path, recDir) {
-			nInjected = 0 // same ordinal, different file: the call sequence shifted between the two runs
+		if nInjected == 1 {
+			im := reTrace.FindStringSubmatch(injLine)
+			if im == nil || normPath(firstPath(injLine, dir), dir) != normPath(p.Path, recDir) || (p.Sig != "" && callSig(im[3]) != p.Sig) {
+				nInjected = 0 // same ordinal, different call: the call sequence shifted between the two runs
+			}
 		}
 		if nInjected != 1 || !strings.Contains(injLine, dir+"/") {
 			statExtra("misaligned-injections", 1)
